@@ -39,7 +39,7 @@ NonFatal == {"rec", "nanlogp", "posinf", "neginf", "nangrad", "infgrad", "huge"}
 Kinds == NonFatal \cup {"fatal"}
 Phases == {"init", "search_step", "traj", "research_init", "research_step"}
 
-VARIABLES mode,     \* "fresh" / "ready" / "dead"
+VARIABLES mode,     \* "fresh" / "retry" (initialisation failed, may be tried again) / "ready" / "dead"
           lastCall  \* record of the last call, for the invariants
 
 fvars == <<mode, lastCall>>
@@ -67,10 +67,13 @@ DrawAllowed(res, div, fin, F) ==
     /\ res = "ok" => fin                                        \* R3, R5
     /\ F = {} => res = "ok"                                     \* R6
 
+\* (a failed initialisation may be retried on the same chain object - the parallel sampler does so up to
+\* 500 times - and the retry is judged like a first attempt: whatever the failed attempt left behind must
+\* not make a later call misbehave)
 SetPosition(res, F) ==
-    /\ mode = "fresh"
+    /\ mode \in {"fresh", "retry"}
     /\ SetPosAllowed(res, F)
-    /\ mode' = IF res = "ok" THEN "ready" ELSE "dead"
+    /\ mode' = IF res = "ok" THEN "ready" ELSE "retry"
     /\ lastCall' = [call |-> "setpos", res |-> res, F |-> F]
 
 Draw(res, div, fin, F) ==
